@@ -99,6 +99,15 @@ class _BinaryUnitOp(Contract):
 class UnitMul(_BinaryUnitOp):
     name = "unyt.unit_object.Unit.__mul__"
 
+    def apply(self, it, bound):
+        u = bound["u"]
+        if not (isinstance(u, SObj) and u.cls.name == "Unit"):
+            # data path (Unit * array / scalar): contract UnitMulData below
+            from pyvc import handlers as H
+            it.call_log.append(self.name + "[data]")
+            return H.unit_times_data(it, bound["self"], u)
+        return _BinaryUnitOp.apply(self, it, bound)
+
     def raises(self, it, a):
         ok_off = z3.Or(z3.And(dim_in_temp_angle(a.u), dimless(a.self)),
                        z3.And(dim_in_temp_angle(a.self), dimless(a.u)))
